@@ -246,14 +246,24 @@ func c08Case(c *Ctx, r *Runner, inst *impl.Instance, bucket string, integ bool, 
 	variant := fmt.Sprintf("md5=%s cl=%s key=%s meta=%s streaming=%v tail=%s", md5Variant, clVariant, keyVariant, mdVariant, streaming, tail)
 	cs := append(append([]string{}, r.Lines[:3]...), line)
 	accepted := strings.HasPrefix(obs, "stored ")
+	// why the specification refuses, coarsely: the known findings D16 are about what can only be
+	// seen while or after the body is read (its length, its digest, a failing reader)
+	early := mdVariant == fmt.Sprintf("size=%d", limit+1) ||
+		clVariant == "absent" || clVariant == "nonnumeric" || clVariant == "negative" || keyVariant == "1025" ||
+		integ && (md5Variant == "empty" || md5Variant == "malformed" || md5Variant == "short" || md5Variant == "long")
+	cls := ":streamed"
+	if early {
+		cls = ":early"
+	}
+	lengthOnly := !(integ && md5Variant == "wrong")
 	// specification first: a rejected upload leaves the snapshot unchanged; an acknowledged one is what the model accepts
 	switch {
 	case !accepted && before != after:
 		c.mismatch(Mismatch{Kind: "spec", Backend: kind, Case: cs, Impl: obs + " ; before: " + trunc(before, 200) + " ; after: " + trunc(after, 200), Model: model, Spec: "rejected ⇒ unchanged",
-			Finger: "c08:rejected-upload-changed-state", Note: variant})
+			Finger: "c08:rejected-upload-changed-state" + map[bool]string{true: "", false: ":early"}[cls == ":streamed"], Note: variant})
 	case accepted && spec == "rejected-unchanged":
 		c.mismatch(Mismatch{Kind: "spec", Backend: kind, Case: cs, Impl: obs, Model: model, Spec: "must be rejected (" + model + ")",
-			Finger: "c08:accepted-bad-upload", Note: variant})
+			Finger: "c08:accepted-bad-upload" + map[bool]string{true: "", false: ":not-length"}[lengthOnly && !early], Note: variant})
 	case !accepted && spec == "stored":
 		c.mismatch(Mismatch{Kind: "spec", Backend: kind, Case: cs, Impl: obs, Model: model, Spec: "must be accepted", Finger: "c08:rejected-good-upload", Note: variant})
 	case obs != model:
